@@ -2,7 +2,7 @@
 from props.common import *
 import binascii
 
-MODULE = "PestModel.Thm.C09"
+MODULE = ["PestModel.Thm.C09", "PestModel.Thm.Capstone"]
 DRV = "drv_front"
 DEEP_ID = "C09-deep-nesting-stack-overflow"
 
